@@ -1193,6 +1193,11 @@ func (vr *voterecords) countWithExpels(
 		newthreshold := base.MaxThreshold
 		quorum := uint(suf.Len() - len(wfacts))
 
+		// NOTE expels without enough node signs can not make voteproof
+		if _, err := isaac.NewSuffrageWithExpels(suf, threshold, expels); err != nil {
+			continue
+		}
+
 		if uint(len(set)) < newthreshold.Threshold(quorum) {
 			continue
 		}
